@@ -264,7 +264,8 @@ def corr_geometry(ctx, exe, rng, count):
     lines, expect = [], []
     for _ in range(count):
         k = rng.choice([3, 4, 4, 5, 6, 8])
-        pts = C.convex_polygon(rng, k)
+        # two in five at map-projection eastings / northings, ~10 m across (cancellation in unshifted shoelace sums)
+        pts = C.convex_polygon(rng, k, scale=8.0, offset=rng.choice(C.MAP_ORIGINS)) if rng.random() < 0.4 else C.convex_polygon(rng, k)
         col = column('  a', [node('%3d' % i, np.array(p)) for i, p in enumerate(pts)])
         lines.append('area\t' + qpts(pts)); expect.append((float(col.area),))
         lines.append('cen\t' + qpts(pts)); expect.append((float(col.centre[0]), float(col.centre[1])))
@@ -364,7 +365,9 @@ def shipped_cases(rng, infos, counts):
             mode = rng.choice(C.MODES)
             if not mode and rng.random() < 0.15:
                 S = S + [rng.randrange(n)]        # may touch a polygon column: refine() then declines and nothing may change
-            cases.append({'mesh': {'kind': 'file', 'name': name}, 'seed': rng.randrange(1 << 30), 'shape': shape, 'npts': 4,
+            fm = {'kind': 'file', 'name': name}
+            if rng.random() < 0.3: fm['read_into_used'] = True      # read() into an object that held and edited another geometry
+            cases.append({'mesh': fm, 'seed': rng.randrange(1 << 30), 'shape': shape, 'npts': 4,
                           'op': {'name': 'refine', 'columns': S, 'bisect': mode, 'edge': E}})
         polys = [i for i in range(n) if nn[i] > 4]
         for k in range(k_dec):
@@ -447,6 +450,8 @@ def make_cases(ctx, rng, infos, tr):
     fam['shipped-geometries'] = shipped_cases(rng, infos, counts)
     seq_infos = [dict(i, seq_reps=1) for i in infos if i['name'] in (('g1.dat', 'g3.dat', 'g5.dat', 'g6.dat', 'g7.dat') if th else ('g1.dat', 'g5.dat', 'g7.dat'))]
     fam['operation-sequences'] = C.sequence_cases(rng, 12 if th else 3, seq_infos)
+    fam['map-projection-coordinates'] = C.map_cases(rng, 10 if th else 2)
+    fam['reused-argument-lists'] = C.twin_cases(rng, 400 if th else 60)
     return fam
 
 
@@ -491,6 +496,9 @@ def run(ctx):
                 'refine>triangulate, triangulate>refine, decompose>refine/split/triangulate, split>triangulate>refine, ... 18 + 4 patterns; later steps '
                 'aimed at the columns the previous step kept / created / touched / their neighbours) on geometries whose column centres are SPECIFIED '
                 '(column(..., centre=centroid | another interior point); shipped g1, g5 [thorough: g3, g6]) or not, every clause evaluated after each step. '
+                'MAP-PROJECTION coordinates (5 non-round origins ~1e6..6e6 m, columns 5..12 m, every operation that places a centre node); the same call '
+                'made FIRST on a model variant with the same names using the very same argument list objects (state leaking through the caller\'s lists); '
+                'shipped geometries read into an object that held and edited another geometry. '
                 'Distinct = distinct JSON of the case; non-trivial = the operation changed the geometry '
                 '(empty selections, split at a foreign node, edge columns without refined side are counted as trivial).')
     ctx.trusted += ['Coq 8.16.1 kernel (coqc); vm_compute only on closed finite terms; no native_compute',
@@ -565,6 +573,8 @@ def run(ctx):
             # bounded by case counts (deterministic), not by the clock
             r2 = random.Random(ctx.seed + 4711)
             sweep(ctx, pool, 'deep-surface-sweep', C.surface_cases(r2, 4 if ctx.thorough else 2), stats)
+            if ctx.new_failures: return
+            sweep(ctx, pool, 'deep-map-and-reuse', C.map_cases(r2, 6 if ctx.thorough else 3) + C.twin_cases(r2, 200 if ctx.thorough else 100), stats)
             if ctx.new_failures: return
             sweep(ctx, pool, 'deep-operation-sequences', C.sequence_cases(r2, 12 if ctx.thorough else 4, [i for i in infos if i['name'] in ('g1.dat', 'g5.dat', 'g6.dat')]), stats)
             if ctx.new_failures: return
